@@ -1,5 +1,6 @@
 import GaeaVerif.Model.GlobalStmt
 import GaeaVerif.Lemmas.ShardLayoutLemmas
+import GaeaVerif.Lemmas.GlobalTreeLemmas
 /-
   C04 — Global tables: writes reach every copy, reads touch one copy, database
   names are rewritten to the physical database of the copy.
@@ -7,24 +8,24 @@ import GaeaVerif.Lemmas.ShardLayoutLemmas
   `Model/ShardLayout.lean`; the tie to proxy/plan and proxy/router is `gvh run C04`.
 -/
 namespace GaeaVerif.C04
-open GaeaVerif GaeaVerif.Layout GaeaVerif.Global
+open GaeaVerif GaeaVerif.Layout GaeaVerif.Global GaeaVerif.GlobalTree
 
 /-- where a produced statement is sent -/
 def target {α : Type} (t : Target α) : String × String := (t.slice, t.db)
 
 /-- an accepted plan used the layout of the table `first` and went through
     `generateShardingSQLs` -/
-theorem planGlobal_ok (pinned : Bool) (valid : List String) (rules : List Rule) (s : Stmt) (first pick : Nat)
-    (out : List (Target (List Chain))) (h : planGlobal pinned valid rules s first pick = .ok out) :
+theorem planGlobal_ok (pinned : Bool) (valid : List String) (sess : String) (rules : List Rule) (s : Stmt) (first pick : Nat)
+    (out : List (Target (List Chain))) (h : planGlobal pinned valid sess rules s first pick = .ok out) :
     ∃ r, rules[first]? = some r ∧
       ((s.kind = .select ∧ r.idxs.length ≠ 0 ∧
-          generateShardingSQLs r (restoreAll pinned (mkEnv valid rules s) (textNames s))
+          generateShardingSQLs r (restoreAll pinned (mkEnv valid sess rules s) (textNames s))
             [((pick % r.idxs.length : Nat) : Int)] = .ok out) ∨
        (s.kind ≠ .select ∧
-          generateShardingSQLs r (restoreAll pinned (mkEnv valid rules s) (textNames s)) r.idxs = .ok out)) := by
+          generateShardingSQLs r (restoreAll pinned (mkEnv valid sess rules s) (textNames s)) r.idxs = .ok out)) := by
   unfold planGlobal at h
   simp only at h
-  cases hc : checkNames (mkEnv valid rules s) (planOrder s) with
+  cases hc : checkNames pinned (mkEnv valid sess rules s) (planOrder s) with
   | fail => simp [hc] at h
   | panic => simp [hc] at h
   | ok u =>
@@ -59,12 +60,12 @@ theorem planGlobal_ok (pinned : Bool) (valid : List String) (rules : List Rule) 
     DELETE over global tables that the planner accepts produces exactly one
     statement per configured copy, in copy order, each filed under the slice
     and physical database of that copy. -/
-theorem global_write_all (ns valid : List String) (cfg : GlobalCfg) (r : Rule) (rules : List Rule) (s : Stmt)
+theorem global_write_all (ns valid : List String) (sess : String) (cfg : GlobalCfg) (r : Rule) (rules : List Rule) (s : Stmt)
     (first pick : Nat) (out : List (Target (List Chain)))
     (hv : ValidCfg cfg) (hr : parseGlobalRule false ns cfg = some r) (hfirst : rules[first]? = some r)
-    (hk : s.kind ≠ .select) (h : planGlobal false valid rules s first pick = .ok out) :
+    (hk : s.kind ≠ .select) (h : planGlobal false valid sess rules s first pick = .ok out) :
     out.map target = copies cfg := by
-  obtain ⟨r', hr', hcase⟩ := planGlobal_ok _ _ _ _ _ _ _ h
+  obtain ⟨r', hr', hcase⟩ := planGlobal_ok _ _ _ _ _ _ _ _ h
   rw [hfirst] at hr'
   simp only [Option.some.injEq] at hr'
   subst hr'
@@ -95,12 +96,12 @@ theorem global_write_all (ns valid : List String) (cfg : GlobalCfg) (r : Rule) (
     accepted SELECT over global tables is exactly one statement, and it is
     filed under the slice and physical database of a configured copy (the
     copy with the picked index). -/
-theorem global_read_one (ns valid : List String) (cfg : GlobalCfg) (r : Rule) (rules : List Rule) (s : Stmt)
+theorem global_read_one (ns valid : List String) (sess : String) (cfg : GlobalCfg) (r : Rule) (rules : List Rule) (s : Stmt)
     (first pick : Nat) (out : List (Target (List Chain)))
     (hv : ValidCfg cfg) (hr : parseGlobalRule false ns cfg = some r) (hfirst : rules[first]? = some r)
-    (hk : s.kind = .select) (h : planGlobal false valid rules s first pick = .ok out) :
+    (hk : s.kind = .select) (h : planGlobal false valid sess rules s first pick = .ok out) :
     ∃ t, out = [t] ∧ (copies cfg)[pick % totalTables cfg.locations]? = some (target t) ∧ target t ∈ copies cfg := by
-  obtain ⟨r', hr', hcase⟩ := planGlobal_ok _ _ _ _ _ _ _ h
+  obtain ⟨r', hr', hcase⟩ := planGlobal_ok _ _ _ _ _ _ _ _ h
   rw [hfirst] at hr'
   simp only [Option.some.injEq] at hr'
   subst hr'
@@ -125,11 +126,6 @@ theorem global_read_one (ns valid : List String) (cfg : GlobalCfg) (r : Rule) (r
 
 /-! ### Database names -/
 
-/-- positions at which the planner installs a decorator or removes the qualifiers -/
-def Rewritten : Pos → Prop
-  | .tableRef | .selField | .condOperand | .condOther | .byItem | .setColumn | .insColumn => True
-  | _ => False
-
 /-- what a name must look like in the statement sent to database `db`: a schema
     qualifier, where the original has one, is `db` -/
 def specChains (db : String) (n : Name) : List Chain :=
@@ -137,6 +133,7 @@ def specChains (db : String) (n : Name) : List Chain :=
   | .tableRef => ((if n.schema = "" then [] else [db]) ++ [n.table]) :: (if n.alias = "" then [] else [[n.alias]])
   | .setColumn => [[n.name]]
   | .insColumn => [[n.name]]
+  | .insValue => [[n.name]]
   | _ => [(if n.schema = "" then [] else [db]) ++ (if n.table = "" then [] else [n.table]) ++ [n.name]]
 
 /-- the database `targetOf` files a statement under is what the decorators write -/
@@ -168,54 +165,75 @@ theorem lookupTable_mem (tables : List (String × String × Rule)) (q : String) 
       exact ⟨t, List.mem_of_find?_eq_some ht, h⟩
     · simp at h
 
-theorem mkEnv_rules (valid : List String) (rules : List Rule) (s : Stmt) (r : Rule)
-    (hall : ∀ r' ∈ rules, r' = r) : ∀ t ∈ (mkEnv valid rules s).tables, t.2.2 = r := by
+theorem mkEnv_rules (valid : List String) (sess : String) (rules : List Rule) (s : Stmt) (r : Rule)
+    (hall : ∀ r' ∈ rules, r' = r) : ∀ t ∈ (mkEnv valid sess rules s).tables, t.2.2 = r := by
   intro t ht
   simp only [mkEnv, List.mem_map] at ht
   obtain ⟨⟨n, r'⟩, hmem, rfl⟩ := ht
   exact hall r' (List.of_mem_zip hmem).2
 
-theorem restoreName_spec (env : Env) (r : Rule) (n : Name) (i : Int) (db : String) (cs : List Chain)
-    (hk : r.kind = .global) (henv : ∀ t ∈ env.tables, t.2.2 = r) (hdb : DbOf r i db) (hn : Rewritten n.pos)
-    (h : restoreName false env n i = .ok cs) : cs = specChains db n := by
-  have hcol : ∀ cs, (match resolve env n with
+theorem resolve_plain (env : Env) (n : Name) (h : resolve env n = .plain) : n.schema = "" ∧ n.table = "" := by
+  unfold resolve at h
+  split at h
+  · assumption
+  · split at h
+    · simp at h
+    · split at h
+      · simp at h
+      · split at h <;> simp at h
+
+theorem resolve_rule (env : Env) (n : Name) (r : Rule) (h : resolve env n = .rule r) :
+    ∃ t ∈ env.tables, t.2.2 = r := by
+  unfold resolve at h
+  split at h
+  · simp at h
+  · split at h
+    · simp at h
+    · split at h
+      · simp at h
+      · split at h
+        · rename_i r' hl
+          simp only [Lookup.rule.injEq] at h
+          subst h
+          exact lookupTable_mem _ _ _ hl
+        · simp at h
+
+/-- a looked-up and decorated column (or wildcard) is printed with the database
+    of the copy in place of its schema qualifier -/
+theorem restoreColumn_spec (env : Env) (r : Rule) (n : Name) (i : Int) (db : String) (cs : List Chain)
+    (hk : r.kind = .global) (henv : ∀ t ∈ env.tables, t.2.2 = r) (hdb : DbOf r i db)
+    (h : (match resolve env n with
       | .plain => R.ok [plainChain n]
       | .rule r => (restoreColumnName r n.schema n.table n.name false i).bind fun c => R.ok [c]
-      | .error => R.fail) = R.ok cs →
-      cs = [(if n.schema = "" then [] else [db]) ++ (if n.table = "" then [] else [n.table]) ++ [n.name]] := by
-    intro cs h
-    split at h
-    · rename_i hres
-      simp only [R.ok.injEq] at h
-      subst h
-      unfold resolve at hres
-      split at hres
-      · rename_i hb; simp [plainChain, hb.1, hb.2]
-      · split at hres <;> try simp at hres
-        split at hres <;> simp at hres
-    · rename_i r' hres
-      have hr' : r' = r := by
-        unfold resolve at hres
-        split at hres <;> try simp at hres
-        split at hres <;> try simp at hres
-        split at hres <;> simp at hres
-        rename_i r'' hl
-        obtain ⟨t, ht, he⟩ := lookupTable_mem _ _ _ hl
-        rw [← hres, ← he]; exact henv t ht
-      subst hr'
-      unfold restoreColumnName at h
-      cases hs : restoreSchema r' n.schema i with
-      | ok sc =>
-        have := restoreSchema_spec r' n.schema i db sc hk hdb hs
-        simp only [hs, hk, R.bind, R.ok.injEq] at h
-        subst h; subst this
-        rfl
-      | fail => simp [hs, R.bind] at h
-      | panic => simp [hs, R.bind] at h
-    · simp at h
+      | .error => R.fail) = R.ok cs) :
+    cs = [(if n.schema = "" then [] else [db]) ++ (if n.table = "" then [] else [n.table]) ++ [n.name]] := by
+  split at h
+  · rename_i hres
+    simp only [R.ok.injEq] at h
+    subst h
+    obtain ⟨h1, h2⟩ := resolve_plain env n hres
+    simp [plainChain, h1, h2]
+  · rename_i r' hres
+    obtain ⟨t, ht, he⟩ := resolve_rule env n r' hres
+    have hr' : r' = r := by rw [← he]; exact henv t ht
+    subst hr'
+    unfold restoreColumnName at h
+    cases hs : restoreSchema r' n.schema i with
+    | ok sc =>
+      have := restoreSchema_spec r' n.schema i db sc hk hdb hs
+      simp only [hs, hk, R.bind, R.ok.injEq] at h
+      subst h; subst this
+      rfl
+    | fail => simp [hs, R.bind] at h
+    | panic => simp [hs, R.bind] at h
+  · simp at h
+
+theorem restoreName_spec (env : Env) (r : Rule) (n : Name) (i : Int) (db : String) (cs : List Chain)
+    (hk : r.kind = .global) (henv : ∀ t ∈ env.tables, t.2.2 = r) (hdb : DbOf r i db)
+    (h : restoreName false env n i = .ok cs) : cs = specChains db n := by
   unfold restoreName at h
-  cases hp : n.pos with
-  | tableRef =>
+  cases hp : n.pos
+  case tableRef =>
     simp only [hp] at h
     split at h <;> try simp at h
     rename_i r' hl
@@ -231,23 +249,20 @@ theorem restoreName_spec (env : Env) (r : Rule) (n : Name) (i : Int) (db : Strin
       simp [specChains, hp]
     | fail => simp [hs] at h
     | panic => simp [hs] at h
-  | selField => simp only [hp] at h; rw [hcol cs h]; simp [specChains, hp]
-  | condOperand => simp only [hp] at h; rw [hcol cs h]; simp [specChains, hp]
-  | condOther => simp only [hp] at h; rw [hcol cs h]; simp [specChains, hp]
-  | byItem => simp only [hp] at h; rw [hcol cs h]; simp [specChains, hp]
-  | setColumn =>
+  case setColumn =>
     simp only [hp] at h
     split at h <;> simp at h
     all_goals subst h; simp [specChains, hp]
-  | insColumn => simp [hp] at h; subst h; simp [specChains, hp]
-  | selWildcard => rw [hp] at hn; exact hn.elim
-  | condNested => rw [hp] at hn; exact hn.elim
-  | setValue => rw [hp] at hn; exact hn.elim
-  | byAppended => rw [hp] at hn; exact hn.elim
+  case insColumn => simp [hp] at h; subst h; simp [specChains, hp]
+  case insValue => simp [hp] at h; subst h; simp [specChains, hp]
+  all_goals
+    simp [hp] at h
+    rw [restoreColumn_spec env r n i db cs hk henv hdb h]
+    simp [specChains, hp]
 
 theorem restoreAll_spec (env : Env) (r : Rule) (names : List Name) (i : Int) (db : String) (sql : List Chain)
     (hk : r.kind = .global) (henv : ∀ t ∈ env.tables, t.2.2 = r) (hdb : DbOf r i db)
-    (hn : ∀ n ∈ names, Rewritten n.pos) (h : restoreAll false env names i = .ok sql) :
+    (h : restoreAll false env names i = .ok sql) :
     sql = names.flatMap (specChains db) := by
   induction names generalizing sql with
   | nil => simp [restoreAll] at h; subst h; rfl
@@ -258,8 +273,7 @@ theorem restoreAll_spec (env : Env) (r : Rule) (names : List Name) (i : Int) (db
     split at h <;> try simp at h
     rename_i rest hrest
     subst h
-    rw [restoreName_spec env r n i db cs hk henv hdb (hn n (by simp)) hcs,
-      ih rest (fun m hm => hn m (by simp [hm])) hrest]
+    rw [restoreName_spec env r n i db cs hk henv hdb hcs, ih rest hrest]
     simp
 
 theorem targetOf_db {α : Type} (r : Rule) (i : Int) (sql : α) (t : Target α) (h : targetOf r i sql = .ok t) :
@@ -270,22 +284,51 @@ theorem targetOf_db {α : Type} (r : Rule) (i : Int) (sql : α) (t : Target α) 
   · rename_i d hd; subst h; exact ⟨Or.inl hd, rfl⟩
   · rename_i hd; subst h; exact ⟨Or.inr ⟨hd, rfl⟩, rfl⟩
 
-/-- **C04 (database names), partial.**
-    Full statement: in every statement sent to a copy, every schema qualifier is
-    the physical database of that copy.  Proved here for statements all of whose
-    names stand at positions the planner rewrites (table references, columns in
-    select fields, comparison / IN / BETWEEN operands, columns below LIKE /
-    IS NULL / NOT, GROUP BY / ORDER BY items, UPDATE SET columns, INSERT
-    columns): the statement sent to database `db` is, name by name, the original
-    with every schema qualifier replaced by `db` (`specChains`).  Missing: the
-    positions the pinned planner leaves untouched — see the four `…_witness`
-    theorems below (open findings). The global tables of the statement must
-    share their layout. -/
-theorem global_db_rewrite_partial (ns valid : List String) (cfg : GlobalCfg) (r : Rule) (rules : List Rule)
+/-- the schema qualifier a chain of a name carries, if any: `db`.`table` for a
+    table reference, `db`.`table`.`column` (or `db`.`table`.*) otherwise -/
+def schemaQualifier (n : Name) (c : Chain) : Option String :=
+  match n.pos, c with
+  | .tableRef, [d, _] => some d
+  | .tableRef, _ => none
+  | _, [d, _, _] => some d
+  | _, _ => none
+
+/-- `specChains db` says what the property says: whatever schema qualifier a
+    name is printed with is `db` -/
+theorem specChains_qualifier (db : String) (n : Name) (c : Chain) (d : String)
+    (hc : c ∈ specChains db n) (hd : schemaQualifier n c = some d) : d = db := by
+  unfold specChains at hc
+  unfold schemaQualifier at hd
+  cases hp : n.pos <;> simp only [hp] at hc hd
+  case tableRef =>
+    by_cases hs : n.schema = "" <;> by_cases ha : n.alias = "" <;> simp [hs, ha] at hc
+    all_goals first | subst hc | (rcases hc with rfl | rfl)
+    all_goals simp at hd
+    all_goals exact hd.symm
+  all_goals
+    by_cases hs : n.schema = "" <;> by_cases ht : n.table = "" <;> simp [hs, ht] at hc
+    all_goals subst hc
+    all_goals simp at hd
+    all_goals exact hd.symm
+
+/-- **C04 (database names).** For every valid or invalid configuration the
+    router accepts, every statement over global tables that share their layout
+    and every accepted plan: the statement sent to a copy whose physical
+    database is `db` is, name by name in text order, the original statement
+    (with the GROUP BY / ORDER BY fields the planner appends, and with the
+    qualifiers of SET / INSERT columns removed) in which every schema qualifier
+    is `db` (`specChains`, see `specChains_qualifier`): table references, columns
+    in select fields, wildcard fields, comparison / IN / BETWEEN operands,
+    columns inside compared functions and arithmetic, columns below LIKE /
+    IS NULL / NOT, GROUP BY / ORDER BY items and the fields appended for them,
+    UPDATE SET columns and values, INSERT columns.  No hypothesis on the
+    positions is left: the four positions the planner used to leave untouched
+    were repaired (`fix:` commits 646f58e, 98a59c2, 5e2a917, 81799b0; the old
+    behaviour is kept as `pinned := true`, see the `pinned_…_witness` theorems). -/
+theorem global_db_rewrite (ns valid : List String) (sess : String) (cfg : GlobalCfg) (r : Rule) (rules : List Rule)
     (s : Stmt) (first pick : Nat) (out : List (Target (List Chain)))
     (hr : parseGlobalRule false ns cfg = some r) (hall : ∀ r' ∈ rules, r' = r)
-    (hn : ∀ n ∈ textNames s, Rewritten n.pos)
-    (h : planGlobal false valid rules s first pick = .ok out) :
+    (h : planGlobal false valid sess rules s first pick = .ok out) :
     ∀ t ∈ out, t.sql = (textNames s).flatMap (specChains t.db) := by
   have hk : r.kind = .global := by
     unfold parseGlobalRule at hr
@@ -295,23 +338,35 @@ theorem global_db_rewrite_partial (ns valid : List String) (cfg : GlobalCfg) (r 
       · simp at hr
       · simp only [Option.some.injEq] at hr
         subst hr; rfl
-  obtain ⟨r', hr', hcase⟩ := planGlobal_ok _ _ _ _ _ _ _ h
+  obtain ⟨r', hr', hcase⟩ := planGlobal_ok _ _ _ _ _ _ _ _ h
   have hrr : r' = r := hall r' (List.mem_of_getElem? hr')
   subst hrr
-  have henv := mkEnv_rules valid rules s r' hall
+  have henv := mkEnv_rules valid sess rules s r' hall
   intro t ht
-  have key : ∀ idxs, generateShardingSQLs r' (restoreAll false (mkEnv valid rules s) (textNames s)) idxs = .ok out →
+  have key : ∀ idxs, generateShardingSQLs r' (restoreAll false (mkEnv valid sess rules s) (textNames s)) idxs = .ok out →
       t.sql = (textNames s).flatMap (specChains t.db) := by
     intro idxs hgen
     obtain ⟨i, _, sql, hsql, htar⟩ := (generateShardingSQLs_spec _ _ _ _ hgen).exists_left t ht
     obtain ⟨hdb, he⟩ := targetOf_db _ _ _ _ htar
     rw [he]
-    exact restoreAll_spec _ r' _ i t.db sql hk henv hdb hn hsql
+    exact restoreAll_spec _ r' _ i t.db sql hk henv hdb hsql
   rcases hcase with ⟨_, _, hgen⟩ | ⟨_, hgen⟩
   · exact key _ hgen
   · exact key _ hgen
 
-/-! ### Non-vacuity, open findings, and the defects repaired in the pinned tree -/
+/-- **C04 (database names), as the property words it.** In every statement
+    sent to a copy, every schema qualifier is the physical database of that copy. -/
+theorem global_db_rewrite_qualifiers (ns valid : List String) (sess : String) (cfg : GlobalCfg) (r : Rule) (rules : List Rule)
+    (s : Stmt) (first pick : Nat) (out : List (Target (List Chain)))
+    (hr : parseGlobalRule false ns cfg = some r) (hall : ∀ r' ∈ rules, r' = r)
+    (h : planGlobal false valid sess rules s first pick = .ok out) :
+    ∀ t ∈ out, ∃ printed : Name → List Chain, t.sql = (textNames s).flatMap printed ∧
+      ∀ n ∈ textNames s, ∀ c ∈ printed n, ∀ d, schemaQualifier n c = some d → d = t.db := by
+  intro t ht
+  exact ⟨specChains t.db, global_db_rewrite ns valid sess cfg r rules s first pick out hr hall h t ht,
+    fun n _ c hc d hd => specChains_qualifier t.db n c d hc hd⟩
+
+/-! ### Non-vacuity, and the defects repaired in the pinned tree -/
 
 /-- namespace `[slice-0, slice-1, slice-2]`; a global table with one copy on
     slice-2 and two on slice-1, in the physical databases db_p0 … db_p2 -/
@@ -339,16 +394,12 @@ def exUpdate : Stmt :=
     tail := [nm .setColumn "db_g" "ga" "a", nm .condOperand "db_g" "ga" "id", nm .byItem "" "ga" "b"] }
 
 /-- a write: three statements, one per copy, every schema qualifier rewritten -/
-example : planGlobal false ["db_g"] [exRule] exUpdate 0 0 =
+example : planGlobal false ["db_g"] "db_g" [exRule] exUpdate 0 0 =
     .ok [⟨"slice-2", "db_p0", [["db_p0", "ga"], ["a"], ["db_p0", "ga", "id"], ["ga", "b"]]⟩,
          ⟨"slice-1", "db_p1", [["db_p1", "ga"], ["a"], ["db_p1", "ga", "id"], ["ga", "b"]]⟩,
          ⟨"slice-1", "db_p2", [["db_p2", "ga"], ["a"], ["db_p2", "ga", "id"], ["ga", "b"]]⟩] ∧
-    exUpdate.kind ≠ .select ∧ (∀ n ∈ textNames exUpdate, Rewritten n.pos) := by
-  refine ⟨by decide, by decide, ?_⟩
-  intro n hn
-  simp only [textNames, appendedFields, exUpdate, nm] at hn
-  simp at hn
-  rcases hn with h | h | h | h <;> subst h <;> exact True.intro
+    exUpdate.kind ≠ .select := by
+  decide
 
 /-- ``SELECT `x`.`a` FROM `db_g`.`ga` AS `x` WHERE `x`.`id` IS NULL `` -/
 def exSelect : Stmt :=
@@ -356,7 +407,7 @@ def exSelect : Stmt :=
     «from» := [{ nm .tableRef "db_g" "ga" "" with alias := "x" }], tail := [nm .condOther "" "x" "id"] }
 
 /-- a read with pick 1: one statement, on the second copy -/
-example : planGlobal false ["db_g"] [exRule] exSelect 0 1 =
+example : planGlobal false ["db_g"] "db_g" [exRule] exSelect 0 1 =
     .ok [⟨"slice-1", "db_p1", [["x", "a"], ["db_p1", "ga"], ["x"], ["x", "id"]]⟩] := by decide
 
 /-- does some statement still name a database other than the one it is sent to? -/
@@ -367,51 +418,78 @@ def keepsForeignDb (dbs : List String) : R (List (Target (List Chain))) → Bool
       | _ => false
   | _ => false
 
-/-- **Open finding** `database-name-not-rewritten-in-wildcard-field`:
-    ``SELECT `db_g`.`ga`.* FROM `ga` `` keeps `db_g` in the statement sent to db_p0. -/
-theorem wildcard_field_keeps_logical_db_witness :
-    planGlobal false ["db_g"] [exRule]
-      { kind := .select, fields := [nm .selWildcard "db_g" "ga" "*"], «from» := [nm .tableRef "" "ga" ""], tail := [] } 0 0 =
-      .ok [⟨"slice-2", "db_p0", [["db_g", "ga", "*"], ["ga"]]⟩] ∧
-    keepsForeignDb ["db_g"] (planGlobal false ["db_g"] [exRule]
-      { kind := .select, fields := [nm .selWildcard "db_g" "ga" "*"], «from» := [nm .tableRef "" "ga" ""], tail := [] } 0 0) = true := by
+def exWildcard : Stmt :=
+  { kind := .select, fields := [nm .selWildcard "db_g" "ga" "*"], «from» := [nm .tableRef "" "ga" ""], tail := [] }
+
+/-- **Defect of the pinned tree (repaired by 81799b0)**, formerly the open finding
+    `database-name-not-rewritten-in-wildcard-field`:
+    ``SELECT `db_g`.`ga`.* FROM `ga` `` kept `db_g` in the statement sent to db_p0. -/
+theorem pinned_wildcard_field_keeps_logical_db_witness :
+    planGlobal true ["db_g"] "db_g" [exRule] exWildcard 0 0 = .ok [⟨"slice-2", "db_p0", [["db_g", "ga", "*"], ["ga"]]⟩] ∧
+    keepsForeignDb ["db_g"] (planGlobal true ["db_g"] "db_g" [exRule] exWildcard 0 0) = true ∧
+    planGlobal false ["db_g"] "db_g" [exRule] exWildcard 0 0 = .ok [⟨"slice-2", "db_p0", [["db_p0", "ga", "*"], ["ga"]]⟩] := by
   decide
 
-/-- **Open finding** `database-name-not-rewritten-in-nested-condition-column`:
-    ``DELETE FROM `ga` WHERE ABS(`db_g`.`ga`.`c`) = 1 `` keeps `db_g` on every copy. -/
-theorem nested_condition_column_keeps_logical_db_witness :
-    keepsForeignDb ["db_g"] (planGlobal false ["db_g"] [exRule]
-      { kind := .delete, fields := [], «from» := [nm .tableRef "" "ga" ""], tail := [nm .condNested "db_g" "ga" "c"] } 0 0) = true ∧
-    planGlobal false ["db_g"] [exRule]
-      { kind := .delete, fields := [], «from» := [nm .tableRef "" "ga" ""], tail := [nm .condNested "db_g" "ga" "c"] } 0 0 =
+def exNested : Stmt :=
+  { kind := .delete, fields := [], «from» := [nm .tableRef "" "ga" ""], tail := [nm .condNested "db_g" "ga" "c"] }
+
+/-- **Defect of the pinned tree (repaired by 98a59c2)**, formerly the open finding
+    `database-name-not-rewritten-in-nested-condition-column`:
+    ``DELETE FROM `ga` WHERE ABS(`db_g`.`ga`.`c`) = 1 `` kept `db_g` on every copy. -/
+theorem pinned_nested_condition_column_keeps_logical_db_witness :
+    keepsForeignDb ["db_g"] (planGlobal true ["db_g"] "db_g" [exRule] exNested 0 0) = true ∧
+    planGlobal true ["db_g"] "db_g" [exRule] exNested 0 0 =
       .ok [⟨"slice-2", "db_p0", [["ga"], ["db_g", "ga", "c"]]⟩, ⟨"slice-1", "db_p1", [["ga"], ["db_g", "ga", "c"]]⟩,
-           ⟨"slice-1", "db_p2", [["ga"], ["db_g", "ga", "c"]]⟩] := by
+           ⟨"slice-1", "db_p2", [["ga"], ["db_g", "ga", "c"]]⟩] ∧
+    planGlobal false ["db_g"] "db_g" [exRule] exNested 0 0 =
+      .ok [⟨"slice-2", "db_p0", [["ga"], ["db_p0", "ga", "c"]]⟩, ⟨"slice-1", "db_p1", [["ga"], ["db_p1", "ga", "c"]]⟩,
+           ⟨"slice-1", "db_p2", [["ga"], ["db_p2", "ga", "c"]]⟩] := by
   decide
 
-/-- **Open finding** `database-name-not-rewritten-in-update-set-value`:
-    ``UPDATE `ga` SET `a` = `db_g`.`ga`.`b`+1 `` keeps `db_g` in the assigned value. -/
-theorem update_set_value_keeps_logical_db_witness :
-    keepsForeignDb ["db_g"] (planGlobal false ["db_g"] [exRule]
-      { kind := .update, fields := [], «from» := [nm .tableRef "" "ga" ""],
-        tail := [nm .setColumn "" "" "a", nm .setValue "db_g" "ga" "b"] } 0 0) = true := by
+def exSetValue : Stmt :=
+  { kind := .update, fields := [], «from» := [nm .tableRef "" "ga" ""],
+    tail := [nm .setColumn "" "" "a", nm .setValue "db_g" "ga" "b"] }
+
+/-- **Defect of the pinned tree (repaired by 5e2a917)**, formerly the open finding
+    `database-name-not-rewritten-in-update-set-value`:
+    ``UPDATE `ga` SET `a` = `db_g`.`ga`.`b`+1 `` kept `db_g` in the assigned value. -/
+theorem pinned_update_set_value_keeps_logical_db_witness :
+    keepsForeignDb ["db_g"] (planGlobal true ["db_g"] "db_g" [exRule] exSetValue 0 0) = true ∧
+    keepsForeignDb ["db_g"] (planGlobal false ["db_g"] "db_g" [exRule] exSetValue 0 0) = false := by
   decide
 
-/-- **Open finding** `database-name-not-rewritten-in-appended-by-field`:
-    ``SELECT `a` FROM `ga` ORDER BY `db_g`.`ga`.`b` `` appends the undecorated
-    `db_g`.`ga`.`b` to the select list (the ORDER BY item itself is rewritten). -/
-theorem appended_by_field_keeps_logical_db_witness :
-    planGlobal false ["db_g"] [exRule]
-      { kind := .select, fields := [{ nm .selField "" "" "a" with whole := true }], «from» := [nm .tableRef "" "ga" ""],
-        tail := [nm .byItem "db_g" "ga" "b"] } 0 2 =
-      .ok [⟨"slice-1", "db_p2", [["a"], ["db_g", "ga", "b"], ["ga"], ["db_p2", "ga", "b"]]⟩] := by
+def exAppended : Stmt :=
+  { kind := .select, fields := [{ nm .selField "" "" "a" with whole := true }], «from» := [nm .tableRef "" "ga" ""],
+    tail := [nm .byItem "db_g" "ga" "b"] }
+
+/-- **Defect of the pinned tree (repaired by 646f58e)**, formerly the open finding
+    `database-name-not-rewritten-in-appended-by-field`:
+    ``SELECT `a` FROM `ga` ORDER BY `db_g`.`ga`.`b` `` appended the undecorated
+    `db_g`.`ga`.`b` to the select list (the ORDER BY item itself was rewritten). -/
+theorem pinned_appended_by_field_keeps_logical_db_witness :
+    planGlobal true ["db_g"] "db_g" [exRule] exAppended 0 2 =
+      .ok [⟨"slice-1", "db_p2", [["a"], ["db_g", "ga", "b"], ["ga"], ["db_p2", "ga", "b"]]⟩] ∧
+    planGlobal false ["db_g"] "db_g" [exRule] exAppended 0 2 =
+      .ok [⟨"slice-1", "db_p2", [["a"], ["db_p2", "ga", "b"], ["ga"], ["db_p2", "ga", "b"]]⟩] := by
   decide
+
+def accepted {α : Type} : R α → Bool
+  | .ok _ => true
+  | _ => false
+
+/-- the hypotheses of `global_db_rewrite` are satisfiable on statements with
+    names at the four repaired positions -/
+example : (∀ r' ∈ [exRule], r' = exRule) ∧ parseGlobalRule false exNs exCfg = some exRule ∧
+    accepted (planGlobal false ["db_g"] "db_g" [exRule] exWildcard 0 0) ∧ accepted (planGlobal false ["db_g"] "db_g" [exRule] exNested 0 0) ∧
+    accepted (planGlobal false ["db_g"] "db_g" [exRule] exSetValue 0 0) ∧ accepted (planGlobal false ["db_g"] "db_g" [exRule] exAppended 0 0) := by
+  refine ⟨by simp, by decide, by decide, by decide, by decide, by decide⟩
 
 /-- **Defect of the pinned tree (repaired by c29cd53)**: with the rule's slices
     replaced by the namespace's, the copies configured on slice-2, slice-1,
     slice-1 were addressed on slice-0, slice-1, slice-1. -/
 theorem pinned_namespace_slices_witness :
     (match parseGlobalRule true exNs exCfg with
-     | some r => (planGlobal false ["db_g"] [r] exUpdate 0 0 |> fun o =>
+     | some r => (planGlobal false ["db_g"] "db_g" [r] exUpdate 0 0 |> fun o =>
          match o with | .ok out => out.map target | _ => [])
      | none => []) = [("slice-0", "db_p0"), ("slice-1", "db_p1"), ("slice-1", "db_p2")] ∧
     copies exCfg = [("slice-2", "db_p0"), ("slice-1", "db_p1"), ("slice-1", "db_p2")] := by
@@ -420,10 +498,283 @@ theorem pinned_namespace_slices_witness :
 /-- **Defect of the pinned tree (repaired by 116abc1)**: the column list of an
     INSERT into a global table kept its qualifiers. -/
 theorem pinned_insert_column_keeps_logical_db_witness :
-    keepsForeignDb ["db_g"] (planGlobal true ["db_g"] [exRule]
+    keepsForeignDb ["db_g"] (planGlobal true ["db_g"] "db_g" [exRule]
       { kind := .insert, fields := [], «from» := [nm .tableRef "db_g" "ga" ""], tail := [nm .insColumn "db_g" "ga" "a"] } 0 0) = true ∧
-    keepsForeignDb ["db_g"] (planGlobal false ["db_g"] [exRule]
+    keepsForeignDb ["db_g"] (planGlobal false ["db_g"] "db_g" [exRule]
       { kind := .insert, fields := [], «from» := [nm .tableRef "db_g" "ga" ""], tail := [nm .insColumn "db_g" "ga" "a"] } 0 0) = false := by
+  decide
+
+/-! ### Statements as trees: the planner's handlers inside the model -/
+
+theorem specChains_eq_printRef (db : String) (n : Name) : specChains db n = printRef db (nameRef n) := by
+  unfold specChains printRef nameRef
+  cases hp : n.pos <;> simp [posKind]
+
+/-- an accepted plan over the copies went through the checker, the syntactic
+    checks, the lookup of every table reference and `planGlobal` on the name
+    skeleton -/
+theorem planStmt_shard (router : List RouterRule) (valid : List String) (sess : String) (s : TStmt)
+    (first pick : Nat) (out : List (Target (List Chain)))
+    (h : planStmt router valid sess s first pick = .ok (.shard out)) :
+    checker router sess s.tables = .shard ∧ rejected s = false ∧
+      ∃ rules, resolveRefs router valid sess s.tables = some rules ∧
+        planGlobal false valid sess rules (skeleton s) first pick = .ok out := by
+  unfold planStmt at h
+  split at h
+  · simp at h
+  · simp at h
+  · rename_i hc
+    split at h
+    · simp at h
+    · rename_i hrej
+      split at h
+      · simp at h
+      · rename_i rules hres
+        split at h
+        · rename_i out' hp
+          simp only [R.ok.injEq, Plan.shard.injEq] at h
+          subst h
+          exact ⟨hc, by simpa using hrej, rules, hres, hp⟩
+        · simp at h
+        · simp at h
+
+theorem planStmt_unshard (router : List RouterRule) (valid : List String) (sess : String) (s : TStmt)
+    (first pick : Nat) (h : planStmt router valid sess s first pick = .ok .unshard) :
+    checker router sess s.tables = .unshard := by
+  unfold planStmt at h
+  split at h
+  · simp at h
+  · assumption
+  · split at h
+    · simp at h
+    · split at h
+      · simp at h
+      · split at h <;> simp at h
+
+theorem checker_unshard (router : List RouterRule) (sess : String) (ts : List TableRef)
+    (h : checker router sess ts = .unshard) :
+    ∀ t ∈ ts, getShardRule router (effectiveDB sess t) t.table = none := by
+  induction ts with
+  | nil => intro t ht; simp at ht
+  | cons t ts ih =>
+    unfold checker at h
+    split at h
+    · simp at h
+    · split at h
+      · simp at h
+      · rename_i hnone
+        intro t' ht'
+        simp only [List.mem_cons] at ht'
+        rcases ht' with rfl | ht'
+        · simpa using hnone
+        · exact ih h t' ht'
+
+/-- **C04 (a statement on a global table is planned on the copies).** If
+    `BuildPlan` answers with an unshard plan (the statement is sent once, to the
+    default slice, as it is), then no table of the statement has a shard rule in
+    the database it stands in: its own schema qualifier, or the session's
+    database when it has none.  In particular the session's database never
+    overrides a qualifier. -/
+theorem stmt_unshard_names_no_global (router : List RouterRule) (valid : List String) (sess : String) (s : TStmt)
+    (first pick : Nat) (h : planStmt router valid sess s first pick = .ok .unshard) :
+    ∀ t ∈ s.tables, getShardRule router (effectiveDB sess t) t.table = none :=
+  checker_unshard router sess s.tables (planStmt_unshard router valid sess s first pick h)
+
+/-- the layout the planner takes is that of one of the statement's tables -/
+theorem planGlobal_first_mem (valid : List String) (sess : String) (rules : List Rule) (s : Stmt) (first pick : Nat)
+    (out : List (Target (List Chain))) (h : planGlobal false valid sess rules s first pick = .ok out) :
+    ∃ r, rules[first]? = some r ∧ r ∈ rules := by
+  obtain ⟨r, hr, _⟩ := planGlobal_ok _ _ _ _ _ _ _ _ h
+  exact ⟨r, hr, List.mem_of_getElem? hr⟩
+
+/-- **C04 (writes reach every copy), on statement trees.** For every session
+    database, every statement tree and every choice `first` of the table whose
+    layout the planner takes: if the statement's tables share the layout of a
+    valid configuration, an accepted INSERT / UPDATE / DELETE is planned as
+    exactly one statement per configured copy, in copy order. -/
+theorem stmt_write_all (ns valid : List String) (sess : String) (cfg : GlobalCfg) (r : Rule)
+    (router : List RouterRule) (s : TStmt) (first pick : Nat) (out : List (Target (List Chain)))
+    (hv : ValidCfg cfg) (hr : parseGlobalRule false ns cfg = some r)
+    (hall : ∀ rules, resolveRefs router valid sess s.tables = some rules → ∀ r' ∈ rules, r' = r)
+    (hk : s.kind ≠ .select) (h : planStmt router valid sess s first pick = .ok (.shard out)) :
+    out.map target = copies cfg := by
+  obtain ⟨_, _, rules, hres, hp⟩ := planStmt_shard router valid sess s first pick out h
+  obtain ⟨r', hf, hm⟩ := planGlobal_first_mem valid sess rules (skeleton s) first pick out hp
+  rw [hall rules hres r' hm] at hf
+  exact global_write_all ns valid sess cfg r rules (skeleton s) first pick out hv hr hf hk hp
+
+/-- **C04 (reads touch one copy), on statement trees.** Under the same
+    hypotheses an accepted SELECT is exactly one statement, on the configured
+    copy with the picked index, for every value of the random pick. -/
+theorem stmt_read_one (ns valid : List String) (sess : String) (cfg : GlobalCfg) (r : Rule)
+    (router : List RouterRule) (s : TStmt) (first pick : Nat) (out : List (Target (List Chain)))
+    (hv : ValidCfg cfg) (hr : parseGlobalRule false ns cfg = some r)
+    (hall : ∀ rules, resolveRefs router valid sess s.tables = some rules → ∀ r' ∈ rules, r' = r)
+    (hk : s.kind = .select) (h : planStmt router valid sess s first pick = .ok (.shard out)) :
+    ∃ t, out = [t] ∧ (copies cfg)[pick % totalTables cfg.locations]? = some (target t) ∧ target t ∈ copies cfg := by
+  obtain ⟨_, _, rules, hres, hp⟩ := planStmt_shard router valid sess s first pick out h
+  obtain ⟨r', hf, hm⟩ := planGlobal_first_mem valid sess rules (skeleton s) first pick out hp
+  rw [hall rules hres r' hm] at hf
+  exact global_read_one ns valid sess cfg r rules (skeleton s) first pick out hv hr hf hk hp
+
+/-- **C04 (database names), on statement trees, for every expression tree.**
+    Whatever the shape of the statement's conditions and values (any nesting of
+    AND / OR, comparisons, other operators, IN, BETWEEN, parentheses, function
+    calls …), the statement sent to a copy whose physical database is `db` is
+    the listing `refs` of *all* table and column names of the statement (a
+    listing that knows nothing about the planner's handlers) printed by
+    `printRef db`: as written, every schema qualifier replaced by `db`.  Hence
+    no handler of the planner leaves a name out. -/
+theorem stmt_db_rewrite (ns valid : List String) (sess : String) (cfg : GlobalCfg) (r : Rule)
+    (router : List RouterRule) (s : TStmt) (first pick : Nat) (out : List (Target (List Chain)))
+    (hr : parseGlobalRule false ns cfg = some r)
+    (hall : ∀ rules, resolveRefs router valid sess s.tables = some rules → ∀ r' ∈ rules, r' = r)
+    (h : planStmt router valid sess s first pick = .ok (.shard out)) :
+    ∀ t ∈ out, t.sql = (refs s).flatMap (printRef t.db) := by
+  obtain ⟨_, _, rules, hres, hp⟩ := planStmt_shard router valid sess s first pick out h
+  intro t ht
+  rw [global_db_rewrite ns valid sess cfg r rules (skeleton s) first pick out hr (hall rules hres) hp t ht,
+    ← map_textNames s, List.flatMap_map]
+  congr 1
+  funext n
+  exact specChains_eq_printRef t.db n
+
+/-- the schema qualifier a printed name carries, if any -/
+def refQualifier (r : Ref) (c : Chain) : Option String :=
+  match r.kind, c with
+  | .table, [d, _] => some d
+  | .column, [d, _, _] => some d
+  | _, _ => none
+
+/-- `printRef db` prints no schema qualifier but `db` -/
+theorem printRef_qualifier (db : String) (r : Ref) (c : Chain) (d : String)
+    (hc : c ∈ printRef db r) (hd : refQualifier r c = some d) : d = db := by
+  unfold printRef at hc
+  unfold refQualifier at hd
+  cases hk : r.kind <;> simp only [hk] at hc hd
+  case table =>
+    by_cases hs : r.schema = "" <;> by_cases ha : r.alias = "" <;> simp [hs, ha] at hc
+    all_goals first | subst hc | (rcases hc with rfl | rfl)
+    all_goals simp at hd
+    all_goals exact hd.symm
+  case column =>
+    by_cases hs : r.schema = "" <;> by_cases ht : r.table = "" <;> simp [hs, ht] at hc
+    all_goals subst hc
+    all_goals simp at hd
+    all_goals exact hd.symm
+  case bare => simp at hd
+
+
+/-! ### Non-vacuity of the tree theorems, and the defects they exposed (repaired) -/
+
+/-- the router of the examples: the global tables db_g.ga and db_g.gb with the
+    layout `exRule`, and db_o.oz with one copy on slice-0 -/
+def exOther : Rule :=
+  { kind := .global, db := "db_o", slices := ["slice-0"], idxs := [0], t2s := [(0, 0)], dbs := ["db_o"] }
+
+def exRouter : List RouterRule :=
+  [⟨"db_g", "ga", exRule⟩, ⟨"db_g", "gb", exRule⟩, ⟨"db_o", "oz", exOther⟩]
+
+def cg (name : String) : Expr := .col ⟨"db_g", "ga", name⟩
+
+def tr (schema table : String) : TableRef := { schema := schema, table := table, alias := "", on := none }
+
+/-- ``DELETE FROM `ga` WHERE (`db_g`.`ga`.`a` IN (`db_g`.`ga`.`b`, 2) AND ABS(`db_g`.`ga`.`c`) BETWEEN 1 AND `db_g`.`ga`.`d`)
+      OR (`db_g`.`ga`.`e` + 1) * 2 OR `db_g`.`ga`.`f` ``: columns in an IN list, below a
+    function on the left of BETWEEN, in a BETWEEN bound, below arithmetic at
+    the root of a condition, and as a condition of its own -/
+def exDeleteTree : TStmt :=
+  { kind := .delete, fields := [], tables := [tr "" "ga"], cols := [], rows := [], sets := [], ondup := [],
+    «where» := some (.logic (.logic (.paren (.logic (.inList (cg "a") (.node (cg "b") .val))
+        (.between (.node (cg "c") .val) .val (cg "d")))) (.binop (.paren (.binop (cg "e") .val)) .val)) (cg "f")),
+    groupBy := [], having := none, orderBy := [] }
+
+/-- every one of its six columns is met by a handler: the skeleton lists them
+    with their positions -/
+example : ((skeleton exDeleteTree).tail.map fun n => (n.pos, n.name)) =
+    [(.condOperand, "a"), (.condInItem, "b"), (.condBetweenNested, "c"), (.condBetweenBound, "d"),
+     (.condBinopNested, "e"), (.condRoot, "f")] := by decide
+
+/-- the hypotheses of `stmt_write_all` / `stmt_db_rewrite` hold for it, from a
+    session that has selected the other logical database and names the table
+    with its schema: three statements, every qualifier rewritten -/
+example : planStmt exRouter ["db_g", "db_o"] "db_o" { exDeleteTree with tables := [tr "db_g" "ga"] } 0 0 =
+    .ok (.shard [⟨"slice-2", "db_p0", [["db_p0", "ga"], ["db_p0", "ga", "a"], ["db_p0", "ga", "b"], ["db_p0", "ga", "c"],
+                    ["db_p0", "ga", "d"], ["db_p0", "ga", "e"], ["db_p0", "ga", "f"]]⟩,
+                 ⟨"slice-1", "db_p1", [["db_p1", "ga"], ["db_p1", "ga", "a"], ["db_p1", "ga", "b"], ["db_p1", "ga", "c"],
+                    ["db_p1", "ga", "d"], ["db_p1", "ga", "e"], ["db_p1", "ga", "f"]]⟩,
+                 ⟨"slice-1", "db_p2", [["db_p2", "ga"], ["db_p2", "ga", "a"], ["db_p2", "ga", "b"], ["db_p2", "ga", "c"],
+                    ["db_p2", "ga", "d"], ["db_p2", "ga", "e"], ["db_p2", "ga", "f"]]⟩]) ∧
+    resolveRefs exRouter ["db_g", "db_o"] "db_o" [tr "db_g" "ga"] = some [exRule] := by decide
+
+/-- the shared-layout hypothesis of the tree theorems holds for it -/
+example : ∀ rules, resolveRefs exRouter ["db_g", "db_o"] "db_o" [tr "db_g" "ga"] = some rules →
+    ∀ r' ∈ rules, r' = exRule := by
+  intro rules h
+  have h' : resolveRefs exRouter ["db_g", "db_o"] "db_o" [tr "db_g" "ga"] = some [exRule] := by decide
+  rw [h'] at h
+  simp only [Option.some.injEq] at h
+  subst h
+  simp
+
+/-- the same statement without the qualifier names db_o.ga, which has no rule:
+    an unshard plan, and `stmt_unshard_names_no_global` applies -/
+example : planStmt exRouter ["db_g", "db_o"] "db_o" exDeleteTree 0 0 = .ok .unshard := by decide
+
+/-- without a session database an unqualified table name is rejected -/
+example : planStmt exRouter ["db_g", "db_o"] "" exDeleteTree 0 0 = .fail := by decide
+
+/-- **Defects of the pinned tree (repaired by 159d8de, 4d9baa7, 5569888, 706cba5)**:
+    of the six columns of `exDeleteTree` only `a` was rewritten. -/
+theorem pinned_condition_columns_keep_logical_db_witness :
+    planGlobal true ["db_g"] "db_g" [exRule] (skeleton exDeleteTree) 0 0 =
+      .ok [⟨"slice-2", "db_p0", [["ga"], ["db_p0", "ga", "a"], ["db_g", "ga", "b"], ["db_g", "ga", "c"], ["db_g", "ga", "d"],
+              ["db_g", "ga", "e"], ["db_g", "ga", "f"]]⟩,
+           ⟨"slice-1", "db_p1", [["ga"], ["db_p1", "ga", "a"], ["db_g", "ga", "b"], ["db_g", "ga", "c"], ["db_g", "ga", "d"],
+              ["db_g", "ga", "e"], ["db_g", "ga", "f"]]⟩,
+           ⟨"slice-1", "db_p2", [["ga"], ["db_p2", "ga", "a"], ["db_g", "ga", "b"], ["db_g", "ga", "c"], ["db_g", "ga", "d"],
+              ["db_g", "ga", "e"], ["db_g", "ga", "f"]]⟩] ∧
+    keepsForeignDb ["db_g"] (planGlobal false ["db_g"] "db_g" [exRule] (skeleton exDeleteTree) 0 0) = false := by
+  decide
+
+/-- ``SELECT `a` FROM `ga` ORDER BY MAX(`db_g`.`ga`.`b`) `` -/
+def exByAggTree : TStmt :=
+  { kind := .select, fields := [.expr (.col ⟨"", "", "a"⟩)], tables := [tr "" "ga"], cols := [], rows := [], sets := [],
+    ondup := [], «where» := none, groupBy := [], having := none, orderBy := [.agg (.node (cg "b") .val)] }
+
+/-- **Defect of the pinned tree (repaired by 983b024)**: the aggregate function
+    of an ORDER BY item, and the field appended for it, kept `db_g`. -/
+theorem pinned_by_aggregate_keeps_logical_db_witness :
+    planGlobal true ["db_g"] "db_g" [exRule] (skeleton exByAggTree) 0 1 =
+      .ok [⟨"slice-1", "db_p1", [["a"], ["db_g", "ga", "b"], ["ga"], ["db_g", "ga", "b"]]⟩] ∧
+    planStmt exRouter ["db_g"] "db_g" exByAggTree 0 1 =
+      .ok (.shard [⟨"slice-1", "db_p1", [["a"], ["db_p1", "ga", "b"], ["ga"], ["db_p1", "ga", "b"]]⟩]) := by
+  decide
+
+/-- ``INSERT INTO `db_g`.`ga` (`a`) VALUES (`db_g`.`ga`.`b` + 1) ON DUPLICATE KEY UPDATE `a` = `db_g`.`ga`.`a` + 1 `` -/
+def exInsertTree : TStmt :=
+  { kind := .insert, fields := [], tables := [tr "db_g" "ga"], cols := [⟨"", "", "a"⟩], rows := [[.binop (cg "b") .val]],
+    sets := [], ondup := [⟨⟨"", "", "a"⟩, .binop (cg "a") .val⟩], «where» := none, groupBy := [], having := none,
+    orderBy := [] }
+
+/-- **Defect of the pinned tree (repaired by 25a2427)**: the columns in the
+    values of an INSERT into a global table kept `db_g`. -/
+theorem pinned_insert_value_keeps_logical_db_witness :
+    keepsForeignDb ["db_g"] (planGlobal true ["db_g"] "db_g" [exRule] (skeleton exInsertTree) 0 0) = true ∧
+    planStmt exRouter ["db_g"] "db_g" exInsertTree 0 0 =
+      .ok (.shard [⟨"slice-2", "db_p0", [["db_p0", "ga"], ["a"], ["b"], ["a"], ["a"]]⟩,
+                   ⟨"slice-1", "db_p1", [["db_p1", "ga"], ["a"], ["b"], ["a"], ["a"]]⟩,
+                   ⟨"slice-1", "db_p2", [["db_p2", "ga"], ["a"], ["b"], ["a"], ["a"]]⟩]) := by
+  decide
+
+/-- a read through a join of the two global tables, one aliased, with a
+    qualified wildcard: one statement on the picked copy -/
+example : planStmt exRouter ["db_g"] "db_g"
+    { kind := .select, fields := [.wild "db_g" "x", .star],
+      tables := [{ schema := "db_g", table := "ga", alias := "x", on := none },
+                 { schema := "", table := "gb", alias := "", on := some (.cmp (.col ⟨"", "x", "id"⟩) (.col ⟨"db_g", "gb", "id"⟩)) }],
+      cols := [], rows := [], sets := [], ondup := [], «where» := none, groupBy := [], having := none, orderBy := [] } 1 2 =
+    .ok (.shard [⟨"slice-1", "db_p2", [["db_p2", "x", "*"], ["db_p2", "ga"], ["x"], ["gb"], ["x", "id"], ["db_p2", "gb", "id"]]⟩]) := by
   decide
 
 end GaeaVerif.C04
